@@ -166,15 +166,19 @@ Section Plain.
         cbn [map] in Hkids |- *. rewrite E1 in Hkids |- *. cbn [e_any] in Hkids |- *. exact Hkids.
   Qed.
 
-  Lemma plain_obj : forall n cl o qn, wfr cl -> fits n cl o = true -> noq o = true -> exact_classes u n cl o = true ->
-    plain_tree (eobj n qn o) = true.
+  Lemma plain_obj : forall n cl o qn nk, wfr cl -> fits n cl o = true -> noq o = true -> exact_classes u n cl o = true ->
+    nil_ok u cl o nk ->
+    plain_tree (add_nil_e nk (eobj n qn o)) = true.
   Proof.
-    induction n as [|n IH]; intros cl o qn Hwf Hfit Hnq Hex; [discriminate|].
+    induction n as [|n IH]; intros cl o qn nk Hwf Hfit Hnq Hex Hnk; [discriminate|].
     destruct (fits_inv c u ok py_isspace n cl o Hfit) as [fs [m [-> [Hm [Hnames [Hfa [Hfe Hft]]]]]]].
     destruct (wfr_inv u cl Hwf) as [m' [Hm' [Hmc [Hwc Hnest]]]]. rewrite Hm in Hm'. inversion Hm'; subst m'. clear Hm'.
-    cbn [RoundtripGen.eobj]. rewrite Hm. cbn [plain_tree].
+    assert (Hnk0 : nk = true -> m_nillable m = true /\ find_any_attributes m XSI_NIL = None)
+      by (intros H; apply (proj2 (Hnk H) m Hm)).
+    cbn [RoundtripGen.eobj]. rewrite Hm. cbn [add_nil_e plain_tree].
     apply andb_true_iff. split; [apply andb_true_iff; split|].
     - (* attribute values are text *)
+      rewrite forallb_app. apply andb_true_iff. split; [|destruct nk; reflexivity].
       apply forallb_forall. intros ea Hea. apply in_flat_map in Hea as [var [Hvar Hea]].
       destruct (wf_class_avar m var Hwc Hvar) as [[Hwa Hina]|[Hav Hwv]].
       + pose proof (Hfa _ Hina) as Hfv. cbn [snd] in Hfv.
@@ -190,12 +194,12 @@ Section Plain.
         by (intros av Hav; apply (fits_mapvar c u ok py_isspace n cl fs m av Hfit Hm Hav)).
       assert (Hxq0 : xsi_okq ok None) by (intros q0 Hq0; discriminate Hq0).
       assert (Hxf0 : xsi_val None <> None -> find_any_attributes m XSI_TYPE = None) by (intros H0; exfalso; apply H0; reflexivity).
-      pose proof (enames_nodup c u ok ign fs m Hwc Hfa None Hfm Hxf0) as Hn.
-      pose proof (eats_names c u ok ign fs m Hwc Hfa None Hxq0 Hfm Hxf0) as He.
-      cbn [xsi_attr_e] in He. rewrite app_nil_r in He.
+      pose proof (enames_nodup c u ok ign fs m Hwc Hfa None Hfm Hxf0 nk Hnk0) as Hn.
+      pose proof (eats_names c u ok ign fs m Hwc Hfa None Hxq0 Hfm Hxf0 nk Hnk0) as He.
+      cbn [xsi_attr_e app] in He.
       rewrite <- (map_map fst clark_of), He, map_map.
-      assert (Em : map (fun x : qname => clark_of (Bind.split_qname x)) (enames c u ign fs m None) = enames c u ign fs m None).
-      { rewrite <- (map_id (enames c u ign fs m None)) at 2. apply map_ext. intros q0. apply clark_split. }
+      assert (Em : map (fun x : qname => clark_of (Bind.split_qname x)) (enames c u ign fs m None nk) = enames c u ign fs m None nk).
+      { rewrite <- (map_id (enames c u ign fs m None nk)) at 2. apply map_ext. intros q0. apply clark_split. }
       rewrite Em. exact Hn.
     - (* content *)
       destruct (m_text m) as [tv|] eqn:Htx.
@@ -289,8 +293,9 @@ Section Plain.
               rewrite Ex, add_xsi_e_none. split.
               + destruct n as [|n']; [discriminate Hfk|].
                 destruct (fits_inv c u ok py_isspace n' k _ Hfk) as [fs'' [mk [E [Hmk _]]]]. inversion E; subst.
-                cbn [RoundtripGen.eobj]. rewrite Hmk. eauto.
-              + apply (IH k); [|exact Hfk|exact Hny|exact Hey]. apply (Hnest _ var k Hin (or_introl eq_refl) Hcl).
+                cbn [RoundtripGen.eobj]. rewrite Hmk. cbn [add_nil_e]. eauto.
+              + apply (IH k); [|exact Hfk|exact Hny|exact Hey|apply (nil_ok_item c u ok var k k fs' n Hty Hok Hfk)].
+                apply (Hnest _ var k Hin (or_introl eq_refl) Hcl).
             - destruct (v_tokens_factory var) as [tf|] eqn:Etf.
               + destruct (fits_tokens_inv c u ok py_isspace var tf y t Hty Hok) as [tp [l [-> [_ [Htk _]]]]].
                 split; [unfold RoundtripGen.e_prim; eauto|]. apply (plain_prim var t). apply vs_tokens. exact Htk.
